@@ -137,6 +137,12 @@ package b6
 //@   ensures len(*t) == old(len(*t)) + 1 && (*t)[old(len(*t))] == tag
 //@   ensures forall(i, 0, old(len(*t)), (*t)[i] == old((*t)[i]))
 
+// RemoveAllTags leaves an empty list, whatever was there.
+//@ func (*Tags).RemoveAllTags
+//@   requires t != nil
+//@   modifies *t
+//@   ensures len(*t) == 0
+
 //@ func Tags.Clone
 //@   ensures len(result) == len(t) && fresh(result)
 //@   ensures forall(i, 0, len(t), result[i] == t[i])
